@@ -154,7 +154,7 @@ func TestC03(t *testing.T) {
 func TestC04(t *testing.T) {
 	p := &world.Profile{Name: "maxclamp", Linger: true, HugeMax: true, MinGroups: 1, MaxGroups: 2, Fleet: 1, Auto: 1, MaxInit: 8, SmallGraces: true, Steps: 25,
 		FaultFocus: "cloud",
-		Weights:    with(baseWeights(), "targetUtil", 12, "asgEdit", 2, "fleetPlan", 1, "fault", 3, "drainAndForce", 2, "storm", 3, "asgDeleting", 1, "refreshFails", 2)}
+		Weights:    with(baseWeights(), "targetUtil", 12, "asgEdit", 2, "fleetPlan", 1, "fault", 3, "drainAndForce", 2, "storm", 3, "asgDeleting", 1, "refreshFails", 2, "parkedAsg", 2)}
 	col := newCollector(t, "C04", "history check; non-trivial = a scan with a cloud increase request (or a refused one) where max_nodes differs from the cloud maximum or the need exceeds the headroom; distinct by (relation of max_nodes to cloud max, clamped, fleet, recovery, tainted-present)")
 	historyCheck(t, &historyOpts{prop: "C04", profile: p, col: col, classify: func(w *world.World, rec *world.ScanRecord) []string {
 		var keys []string
@@ -195,7 +195,7 @@ func TestC04(t *testing.T) {
 
 func TestC05History(t *testing.T) {
 	p := &world.Profile{Name: "scaleup", FaultFocus: "node-writes", MinGroups: 1, MaxGroups: 1, Fleet: 1, Auto: 1, MaxInit: 10, SmallGraces: true, Steps: 20,
-		Weights: with(baseWeights(), "targetUtil", 14, "taintExt", 5, "cordon", 1, "restart", 2, "fleetPlan", 1, "drainAndForce", 1, "killNode", 2, "storm", 2, "asgEdit", 2, "zeroOut", 2, "sizeSeenOutOfBounds", 2, "gracefulDelete", 3, "refreshFails", 3, "replacePod", 3, "replaceBetweenScans", 3, "sizeChangesThenZero", 3, "fault", 3, "raceOnWrite", 2)}
+		Weights: with(baseWeights(), "targetUtil", 14, "taintExt", 5, "cordon", 1, "restart", 2, "fleetPlan", 1, "drainAndForce", 1, "killNode", 2, "storm", 2, "asgEdit", 2, "zeroOut", 2, "sizeSeenOutOfBounds", 2, "gracefulDelete", 3, "refreshFails", 3, "replacePod", 3, "replaceBetweenScans", 3, "sizeChangesThenZero", 3, "fault", 3, "raceOnWrite", 2, "cordonedTaintedThenBusy", 3)}
 	col := newCollector(t, "C05", "end-to-end: scans in the scale-up band with equal-size nodes; nodes brought into service = untaints + (requested target - real desired); non-trivial = strict scale-up band with need >= 1; distinct by (need, reused, requested, clamped, bound resource)")
 	historyCheck(t, &historyOpts{prop: "C05", profile: p, col: col, classify: func(w *world.World, rec *world.ScanRecord) []string {
 		var keys []string
@@ -257,7 +257,7 @@ func minI(a, b int) int {
 func TestC07(t *testing.T) {
 	p := &world.Profile{Name: "reuse", Linger: true, MinGroups: 1, MaxGroups: 2, Fleet: 1, Auto: 1, MaxInit: 10, SmallGraces: true, Steps: 25, Stale: true,
 		FaultFocus: "node-writes",
-		Weights:    with(baseWeights(), "targetUtil", 12, "taintExt", 8, "fault", 4, "asgEdit", 1, "cordon", 2, "clearNode", 2, "drainAndForce", 2, "setCreated", 1, "storm", 3, "staleWindow", 3, "raceOnWrite", 3, "refreshFails", 2)}
+		Weights:    with(baseWeights(), "targetUtil", 12, "taintExt", 8, "fault", 4, "asgEdit", 1, "cordon", 2, "clearNode", 2, "drainAndForce", 2, "setCreated", 1, "storm", 3, "staleWindow", 3, "raceOnWrite", 3, "refreshFails", 2, "cordonedTaintedThenBusy", 2)}
 	col := newCollector(t, "C07", "history check; scans that untaint or request capacity; non-trivial = 0 < tainted pool < need (partial reuse), creation-time ties in the pool, a failed untaint, or force removal earlier in the same scan; distinct by those flags and pool/need sizes")
 	historyCheck(t, &historyOpts{prop: "C07", profile: p, col: col, classify: func(w *world.World, rec *world.ScanRecord) []string {
 		var keys []string
@@ -347,7 +347,7 @@ func temptation(w *world.World, rec *world.ScanRecord, gr *world.GroupRec, n *v1
 
 func TestC09(t *testing.T) {
 	p := &world.Profile{Name: "cordon", BulkWhat: []string{"force", "force+drain", "cordon", "taint+drain"}, FaultFocus: "node-writes", MinGroups: 1, MaxGroups: 2, Fleet: 0, Auto: 1, MaxInit: 14, SmallGraces: true, Steps: 30, Stale: true,
-		Weights: with(baseWeights(), "cordon", 8, "taintExt", 5, "advance", 8, "annotate", 1, "clearNode", 2, "fault", 2, "staleWindow", 2, "leftoverNode", 2, "bulk", 3, "heartbeat", 2, "raceOnWrite", 3, "belowMinWithCordoned", 2)}
+		Weights: with(baseWeights(), "cordon", 8, "taintExt", 5, "advance", 8, "annotate", 1, "clearNode", 2, "fault", 2, "staleWindow", 2, "leftoverNode", 2, "bulk", 3, "heartbeat", 2, "raceOnWrite", 3, "belowMinWithCordoned", 2, "cordonedTaintedThenBusy", 3)}
 	col := newCollector(t, "C09", "history check; non-trivial = an acting (unlocked, in-bounds) scan that sees a cordoned node which would otherwise have been acted on: grace-expired, force-tainted and empty, tainted under a scale-up, or oldest untainted-looking under a scale-down; distinct by (temptation, action of the scan)")
 	historyCheck(t, &historyOpts{prop: "C09", profile: p, col: col, classify: func(w *world.World, rec *world.ScanRecord) []string {
 		var keys []string
@@ -740,6 +740,7 @@ func TestC08Big(t *testing.T)        { TestC08(t) }
 func TestC09Big(t *testing.T)        { TestC09(t) }
 func TestC10Big(t *testing.T)        { TestC10(t) }
 func TestC19HistoryBig(t *testing.T) { TestC19History(t) }
+func TestC12Big(t *testing.T)        { TestC12(t) }
 
 // nextScanNormal: "after a transient failure the next scan proceeds normally". A scan in which no
 // failure is injected must follow the band rule in every group whose objects are inside the input
